@@ -427,7 +427,10 @@ func (m *Mux) GetHandler(rname string) *Match {
 		}
 	}
 
-	if len(subrname) == 0 {
+	// The mux path itself (or the empty name for a mux without path) matches
+	// the root pattern. The name "<path>." is instead a name with a single
+	// empty token following the path.
+	if len(subrname) == 0 && len(rname) == pl {
 		if m.root.hs == nil {
 			return nil
 		}
